@@ -16,6 +16,7 @@ mod c08;
 mod c09;
 mod c10;
 mod c11;
+mod c14;
 use std::io::Write;
 use util::*;
 
@@ -84,6 +85,7 @@ fn exec_line(ctx: &mut Ctx, line: &str) -> String {
         "c09" => c09::exec(line),
         "c10" => c10::exec(line),
         "c11" => c11::exec(line),
+        "c14" => c14::exec(line),
         _ => "bad-op".into(),
     }
 }
@@ -116,6 +118,7 @@ fn main() {
                 "c09" => c09::generate(&a.tier, a.seed),
                 "c10" => c10::generate(&a.tier, a.seed),
                 "c11" => c11::generate(&a.tier, a.seed),
+                "c14" => c14::generate(&a.tier, a.seed),
                 _ => { eprintln!("unknown property {}", prop); std::process::exit(2) }
             }
         }
